@@ -29,9 +29,9 @@ RULE = ("lattice cases (every input residue name x chain position x force field)
 ASSUMPTIONS = ["'fully parameterised' = every atom of the residue received parameters (none reported unassigned)", "chain ends: generator ground truth (TER / chain id / OXT)",
                "formal charges: ARG/LYS/HIP +1, ASP/GLU/CYM/TYM -1, charged N-terminus +1, charged C-terminus -1"]
 MIN = {"quick": {"residues_checked": 1500, "terminal_residues_checked": 500, "strands_checked": 8, "totals_checked": 70,
-                 "cyclic_cases": 6},
+                 "cyclic_cases": 6, "pka_route_runs": 8},
        "thorough": {"residues_checked": 60000, "terminal_residues_checked": 20000, "strands_checked": 800,
-                    "totals_checked": 5000, "cyclic_cases": 100}}
+                    "totals_checked": 5000, "cyclic_cases": 100, "pka_route_runs": 500}}
 
 
 def cases(tier, seed):
